@@ -1741,6 +1741,40 @@ func runConformanceCollectionsRecurse(rr *RuleRun) {
 	}
 	given, want := info.Defs[paramIdent(fd, 0)], info.Defs[paramIdent(fd, 1)]
 	cf := c.CondFacts(fd.Body, info, nil)
+	// the top-level branches 'given is K && want is K' for the compound kinds
+	compoundPreds := []string{"IsObjectType", "IsTupleType", "IsListType", "IsMapType", "IsSetType", "IsCollectionType"}
+	var compoundIfs []*ast.IfStmt
+	var lastCompound token.Pos
+	for _, st := range fd.Body.List {
+		is, ok := st.(*ast.IfStmt)
+		if !ok {
+			continue
+		}
+		gk, wk := false, false
+		ast.Inspect(is.Cond, func(m ast.Node) bool {
+			if e, ok := m.(ast.Expr); ok {
+				if methodCond(info, e, given, compoundPreds...) {
+					gk = true
+				}
+				if methodCond(info, e, want, compoundPreds...) {
+					wk = true
+				}
+			}
+			return true
+		})
+		if gk && wk {
+			compoundIfs = append(compoundIfs, is)
+			lastCompound = is.Pos()
+		}
+	}
+	nestedInCompound := func(n ast.Node) bool {
+		for _, is := range compoundIfs {
+			if n.Pos() >= is.Pos() && n.End() <= is.End() {
+				return true
+			}
+		}
+		return false
+	}
 	inspectNoLit(fd.Body, func(n ast.Node) bool {
 		call, ok := n.(*ast.CallExpr)
 		if !ok || !isBuiltin(info, call, "append") || len(call.Args) < 2 {
@@ -1754,6 +1788,12 @@ func runConformanceCollectionsRecurse(rr *RuleRun) {
 			return truth && methodCond(info, cond, given, collectionPreds...)
 		})
 		w := cf.HoldsAt(call, func(cond ast.Expr, truth bool) bool { return truth && methodCond(info, cond, want, collectionPreds...) })
+		// a whole-type error outside the per-kind branches is the residual: it may only come after every
+		// compound-kind branch was tried
+		if !nestedInCompound(call) && lastCompound.IsValid() && call.Pos() < lastCompound {
+			rr.Violation(key, call.Pos(), "a whole-type error is reported before the branches for the compound kinds were tried (it is not nested in one of them and further 'both are tuples / lists / maps / sets' branches follow): types that differ only below a compound level — in optional-attribute annotations, which conformance disregards, or at a position the constraint leaves dynamic — are rejected although they conform")
+			return true
+		}
 		if g && w {
 			rr.Violation(key, call.Pos(), "an error is reported for a pair of collection types as a whole (both 'given' and 'want' are established to be collections here): conformance of collections is decided by their element types alone, disregarding optional-attribute annotations and resolving placeholders — a whole-type comparison rejects types that conform")
 		} else {
@@ -4357,4 +4397,66 @@ func runIteratorsAdvanceInStep(rr *RuleRun) {
 			return true
 		})
 	})
+}
+
+// ---------------------------------------------------------------------------
+// C07.optional-list-written-when-nonempty
+
+func init() {
+	register(&Rule{
+		ID: "C07.optional-list-written-when-nonempty", Prop: "C07", Also: []string{"C15"}, Floor: 1, Controls: 0,
+		Doc: "Type.MarshalJSON writes the list of optional attribute names whenever the set of optional attributes is non-empty: the condition guarding that part compares the size of the set with zero ('> 0' or '!= 0'), not with a larger constant — an object type with a single optional attribute must keep it across serialization",
+		Run: runOptionalListWrittenWhenNonempty,
+	})
+}
+
+func runOptionalListWrittenWhenNonempty(rr *RuleRun) {
+	c := rr.Ctx
+	info := c.Info("cty")
+	fd := rr.MustDecl("cty", "Type.MarshalJSON")
+	if fd == nil {
+		return
+	}
+	n := 0
+	inspectNoLit(fd.Body, func(nd ast.Node) bool {
+		is, ok := nd.(*ast.IfStmt)
+		if !ok {
+			return true
+		}
+		be, ok := ast.Unparen(is.Cond).(*ast.BinaryExpr)
+		if !ok {
+			return true
+		}
+		lc, ok := ast.Unparen(be.X).(*ast.CallExpr)
+		if !ok || !isBuiltin(info, lc, "len") || len(lc.Args) != 1 {
+			return true
+		}
+		// the measured collection derives from OptionalAttributes()
+		fromOpt := false
+		if call, ok := ast.Unparen(lc.Args[0]).(*ast.CallExpr); ok && isCall(info, call, "cty.Type.OptionalAttributes") {
+			fromOpt = true
+		}
+		if o := objOf(info, lc.Args[0]); o != nil {
+			if _, idx, rhs := findDefine(info, fd.Body, o); rhs != nil && len(rhs) > idx {
+				if call, ok := ast.Unparen(rhs[idx]).(*ast.CallExpr); ok && isCall(info, call, "cty.Type.OptionalAttributes") {
+					fromOpt = true
+				}
+			}
+		}
+		if !fromOpt {
+			return true
+		}
+		n++
+		key := "cty.Type.MarshalJSON/" + trunc(exprStr(is.Cond), 40)
+		k, isConst := constInt(info, be.Y)
+		if isConst && k == 0 && (be.Op == token.GTR || be.Op == token.NEQ) {
+			rr.OK(key, is.Pos(), "the optional names are written whenever there is at least one")
+		} else {
+			rr.Violation(key, is.Pos(), fmt.Sprintf("the optional attribute names are written only when '%s': a non-empty set of optional attributes that fails this test is dropped from the serialized type, so the type does not survive JSON serialization", exprStr(is.Cond)))
+		}
+		return true
+	})
+	if n == 0 {
+		rr.Assumed("cty.Type.MarshalJSON/optional-guard", fd.Pos(), "no size test of the optional attribute set found (written unconditionally or in another form)")
+	}
 }
